@@ -5,7 +5,7 @@ from common import Check, assert_repo_import, eval_cases, eval_one, canon_tree, 
 import lang_common as LC
 
 IMPORTS = "Base GenThresholds Codebase"
-POOL = ["a", "b", "src", "lib", "x.y", "deep", "é", "a b", ".ci", "ci", ".a"]
+POOL = ["a", "b", "src", "lib", "x.y", "deep", "é", "a b", ".ci", "ci", ".a", "(legacy)", "+tools", "-old", "#archive", " lead", "!x", "~z"]
 LANGS3 = ["Python", "C", "JavaScript"]
 
 
@@ -129,6 +129,9 @@ def run(tier, seed, replay=None):
     chk = Check("C07", tier, seed)
     model_ok = chk.proof_stage(["Agg/Codebase.vo", "Agg/CodebaseProofs.vo"])
     cases = []
+    # the per-language totals the scan overview shows, over several scans made one after the other in this process
+    import c02
+    c02.scan_counter_cases(chk, 15 if tier == "quick" else 300)
 
     def one(entries, tag):
         try:
